@@ -141,4 +141,78 @@ class ErrorFreeDetection(_c06.One):
         return "as C06 `one` without decorations: " + _c06.One.bounds(self, tier) + "; restricted to re-alignment with overhang >= 1 (all variant kinds) and CIGAR-based detection of SNVs"
 
 
-SUBCHECKS = {c.name: c for c in [ErrorFree(), ErrorFreeDetection()]}
+class ErrorFreeSources(_c06._C06Base):
+    """Reads of one sample that come from two input files.  Read names are unique within a BAM file only: a read of the
+    second file may carry the name of a read of the first.  Each is an error-free copy of its own haplotype, so each has to
+    arrive in the read set as its own read (name, source id) carrying only alleles of its own haplotype - the hypothesis of
+    the solver lemma (one haplotype per read) is about the reads the solver sees."""
+
+    name = "ef_sources"
+    required_cover = ["same read name in both input files", "the two reads copy different haplotypes", "both reads keep their own alleles", "variant covered by one of the two reads only"]
+    assumptions = ["two input files (source ids 0 and 1) of one sample; one single-end read each; each read is an exact copy of one haplotype over its interval; two SNVs",
+                   "alignments are handed to ReadSetReader in coordinate order, as MultiBamReader merges the files"]
+
+    def shapes(self, tier):
+        out = []
+        for mode, ov in [("cigar", 0), ("realign", 1)]:
+            for same in (True, False):
+                for layout in ("both-all", "left-right", "all-right"):
+                    out.append(dict(mode=mode, ov=ov, same_name=same, layout=layout, L=6 if tier == "quick" else 8))
+        return out
+
+    def bounds(self, tier):
+        return "reference of %d symbolic bases, two SNVs at every pair of positions, one read per input file (same name / different names; both over everything, left and right half, everything and right half), every combination of carried alleles; CIGAR-based and re-alignment (overhang 1) detection" % (6 if tier == "quick" else 8)
+
+    def harness(self, e, shape, impl):
+        L = shape["L"]
+        R = [_c06._base(e, "r%d" % i) for i in range(L)]
+        p1, p2 = e.choice("pp", [(a, b) for a in range(L) for b in range(a + 1, L)])
+        vs = [_c06._mk_var(e, R, "v", "snv", p1), _c06._mk_var(e, R, "w", "snv", p2)]
+        if not all(v.ok for v in vs):
+            e.assume(False)
+        carried = [[e.bit("h%d_%d" % (r, i)) for i in range(2)] for r in range(2)]
+        spans = {"both-all": [(0, L), (0, L)], "left-right": [(0, L // 2), (L // 2, L)], "all-right": [(0, L), (L // 2, L)]}[shape["layout"]]
+        names = ["p", "p" if shape["same_name"] else "q"]
+        if shape["same_name"]:
+            e.cover("same read name in both input files")
+        if carried[0] != carried[1]:
+            e.cover("the two reads copy different haplotypes")
+        alns = []
+        for r in range(2):
+            hap = [v.norm[h] for v, h in zip(vs, carried[r]) if h > 0]
+            d = _c06._derive_alignment(e, R, hap, spans[r][0], spans[r][1], {}, "%s.%d" % (names[r], r))
+            if d is None:
+                e.assume(False)
+            alns.append((names[r], 0, spans[r][0], d[0], d[1], None, r))
+        alns.sort(key=lambda t: t[2])
+        ctx = lambda: dict(mode=shape["mode"], reference=_c06._txt(e, R), snv_positions=[p1, p2], carried_alleles=carried,
+                           alignments=[dict(name=n, input_file=src, start=st, cigar="".join("%d%s" % (l, _c06.OPCH[op]) for op, l in c), seq=_c06._txt(e, q)) for n, f, st, c, q, ql, src in alns])
+        try:
+            got = impl.run(shape["ov"], [(v.pos, v.ref, v.alts) for v in vs], R if shape["mode"] == "realign" else None, alns, with_source=True)
+        except Exception as ex:  # noqa
+            e.check(False, "reading two input files raised %s" % type(ex).__name__, lambda: dict(ctx(), error=str(ex)[:200]))
+        e.out("readset", sorted(got))
+        ctx2 = lambda: dict(ctx(), readset=e.value(sorted(got)))
+        fine = True
+        for r in range(2):
+            mine = [g for g in got if g[0] == names[r] and g[1] == r]
+            covered = [i for i, v in enumerate(vs) if spans[r][0] <= v.pos < spans[r][1]]
+            if len(covered) == 1:
+                e.cover("variant covered by one of the two reads only")
+            if not covered:
+                continue
+            e.check(len(mine) == 1, "the read of input file %d is not in the read set as a read of its own (reads of different input files merged or dropped)" % r, ctx2)
+            rec = {p: a for p, a, q in mine[0][2]}
+            for i, v in enumerate(vs):
+                if i in covered:
+                    e.check(rec.get(v.pos) == carried[r][i], "a read of input file %d does not carry the allele of its haplotype (error-free read, fully covered SNV)" % r, ctx2)
+                else:
+                    e.check(v.pos not in rec, "a read of input file %d carries an allele at a variant it does not cover" % r, ctx2)
+        e.check(len(got) == sum(1 for r in range(2) if any(spans[r][0] <= v.pos < spans[r][1] for v in vs)), "the read set holds another number of reads than the input files have informative reads", ctx2)
+        e.cover("both reads keep their own alleles")
+
+    def classify(self, shape, v):
+        return "ef_sources:%s:same_name=%s" % (v["msg"], shape["same_name"])
+
+
+SUBCHECKS = {c.name: c for c in [ErrorFree(), ErrorFreeDetection(), ErrorFreeSources()]}
